@@ -112,7 +112,8 @@ def _patch_list() -> list:
             if os.path.exists(meta):
                 with open(meta) as f:
                     m = json.load(f)
-                out.append({"id": "seeded/" + n, "path": os.path.join(sdir, n, "patch.diff"), "prop": m["property"], "expect": "alarm",
+                out.append({"id": "seeded/" + n, "path": os.path.join(sdir, n, "patch.diff"), "prop": m["property"],
+                            "expect": "alarm" if m.get("caught", True) else "not-claimed",
                             "demo": os.path.join(sdir, n, m.get("demo", "demo.py"))})
     return out
 
@@ -148,6 +149,8 @@ def sensitivity(args) -> int:
             if cp.returncode == 2:
                 res = "HARNESS-ERROR"
                 rc = 2
+            elif pt["expect"] == "not-claimed":
+                res = "caught (not claimed)" if alarm else "not caught (by decision, see meta.json)"
             elif pt["expect"] == "alarm":
                 res = "caught" if alarm else "MISSED"
                 if not alarm:
